@@ -2,6 +2,7 @@
 
 use crate::gen::{Peer, Profile};
 use crate::monitors as m;
+use crate::monitors2 as m2;
 use crate::view::{View, Violation};
 
 pub struct PropDef {
@@ -16,6 +17,17 @@ pub struct PropDef {
     pub thorough_cases: u32,
     pub tape_len: usize,
     pub log_polls: bool,
+    pub mode: Mode,
+}
+
+#[derive(Clone, Copy, PartialEq, Debug)]
+pub enum Mode {
+    /// run the scenario once, apply the monitor
+    Single,
+    /// run with direct and with erased routing, compare canonical traces (C16)
+    DiffErased,
+    /// run here and in the default-feature reference process, compare canonical traces (C18)
+    DiffRef,
 }
 
 fn no_labels(_: &View, _: &mut Vec<&'static str>) {}
@@ -57,6 +69,7 @@ pub fn get(id: &str, thorough: bool) -> Option<PropDef> {
                 thorough_cases: 60000,
                 tape_len: 500,
                 log_polls: false,
+                mode: Mode::Single,
             }
         }
         "C02" => {
@@ -80,6 +93,7 @@ pub fn get(id: &str, thorough: bool) -> Option<PropDef> {
                 thorough_cases: 60000,
                 tape_len: 500,
                 log_polls: false,
+                mode: Mode::Single,
             }
         }
         "C03" => {
@@ -107,6 +121,7 @@ pub fn get(id: &str, thorough: bool) -> Option<PropDef> {
                 thorough_cases: 60000,
                 tape_len: 500,
                 log_polls: false,
+                mode: Mode::Single,
             }
         }
         "C04" | "C05" => {
@@ -138,6 +153,7 @@ pub fn get(id: &str, thorough: bool) -> Option<PropDef> {
                     thorough_cases: 60000,
                     tape_len: 500,
                     log_polls: false,
+                    mode: Mode::Single,
                 }
             } else {
                 PropDef {
@@ -151,6 +167,7 @@ pub fn get(id: &str, thorough: bool) -> Option<PropDef> {
                     thorough_cases: 60000,
                     tape_len: 500,
                     log_polls: false,
+                    mode: Mode::Single,
                 }
             }
         }
@@ -180,6 +197,7 @@ pub fn get(id: &str, thorough: bool) -> Option<PropDef> {
                 thorough_cases: 60000,
                 tape_len: 600,
                 log_polls: false,
+                mode: Mode::Single,
             }
         }
         "C07" => {
@@ -211,6 +229,7 @@ pub fn get(id: &str, thorough: bool) -> Option<PropDef> {
                 thorough_cases: 60000,
                 tape_len: 500,
                 log_polls: false,
+                mode: Mode::Single,
             }
         }
         "C08" => {
@@ -237,6 +256,7 @@ pub fn get(id: &str, thorough: bool) -> Option<PropDef> {
                 thorough_cases: 60000,
                 tape_len: 500,
                 log_polls: true,
+                mode: Mode::Single,
             }
         }
         "C09" => {
@@ -269,6 +289,7 @@ pub fn get(id: &str, thorough: bool) -> Option<PropDef> {
                 thorough_cases: 50000,
                 tape_len: 900,
                 log_polls: false,
+                mode: Mode::Single,
             }
         }
         "C10" => {
@@ -297,6 +318,7 @@ pub fn get(id: &str, thorough: bool) -> Option<PropDef> {
                 thorough_cases: 60000,
                 tape_len: 500,
                 log_polls: false,
+                mode: Mode::Single,
             }
         }
         "C11" => {
@@ -330,6 +352,233 @@ pub fn get(id: &str, thorough: bool) -> Option<PropDef> {
                 thorough_cases: 60000,
                 tape_len: 500,
                 log_polls: false,
+                mode: Mode::Single,
+            }
+        }
+
+        "C12" => {
+            let mut p = Profile::base("C12");
+            p.actors = (2, 4);
+            p.clients = (1, 4);
+            p.ops = (1, 8);
+            p.peer = Peer::Dag;
+            p.p_peer = (1, 2);
+            p.p_hook_peer = (1, 3);
+            p.w_peer_how = [4, 2, 8, 4];
+            p.w_start_out = [8, 1, 2];
+            p.w_stop_out = [8, 1, 2];
+            p.w_run_out = [3, 2, 1, 2];
+            p.w_msg_out = [12, 2, 3];
+            p.runs = (0, 2);
+            p.w_kill = 1;
+            p.w_stop = 1;
+            p.w_how = [8, 3, 8, 4, 1];
+            p.late_spawn = true;
+            p.sampler = true;
+            let mut q = p.clone();
+            q.name = "C12-cyclic";
+            q.peer = Peer::Any;
+            q.w_peer_how = [0, 0, 8, 4];
+            q.peer_depth = 3;
+            PropDef {
+                id: "C12",
+                profiles: vec![p, q],
+                monitor: m2::c12,
+                labels: m2::c12_labels,
+                nontrivial: &["peer_op_in_flight_to_victim", "victim_op_in_flight_to_peer", "client_op_in_flight_to_victim"],
+                rule: "2-4 actors exchanging asks/tells with a panic or error injected into a generated hook invocation (on_start, k-th handler, k-th on_run, on_stop) of some actor; all other monitors are applied to the whole system, plus victim-specific checks, a fresh actor spawned afterwards, dead-letter accounting and (full build) wait-for-graph residue; the C12-cyclic profile (ask cycles) is generated only for the build with deadlock detection; distinct by scenario hash; non-trivial iff an operation between the victim and a peer or client was in flight when the victim failed",
+                quick_cases: 4000,
+                thorough_cases: 40000,
+                tape_len: 700,
+                log_polls: false,
+                mode: Mode::Single,
+            }
+        }
+        "C13" => {
+            let mut p = Profile::base("C13");
+            p.clients = (1, 6);
+            p.ops = (2, 10);
+            p.caps = vec![1, 1, 2, 3, 8, 32];
+            p.w_how = [6, 6, 6, 6, 2];
+            p.timeouts = vec![0, 2, 4, 6, 10, 20];
+            p.w_kill = 2;
+            p.w_stop = 2;
+            p.w_start_out = [8, 1, 1];
+            p.w_stop_out = [8, 1, 1];
+            p.w_msg_out = [14, 2, 2];
+            p.w_run_out = [2, 2, 1, 1];
+            p.p_start_sleep = (1, 2);
+            p.start_sleep = 20;
+            p.max_work = 12;
+            p.p_end_drop = (1, 4);
+            p.peer = Peer::Dag;
+            p.actors = (1, 3);
+            p.p_peer = (1, 4);
+            PropDef {
+                id: "C13",
+                profiles: vec![p],
+                monitor: m2::c13,
+                labels: m2::c13_labels,
+                nontrivial: &["two_failure_reasons"],
+                rule: "every tell/ask-family operation against actors in every lifecycle state (not started, running, full mailbox, stopping, dead by each cause); dead-letter records captured by an in-process tracing subscriber are matched one-to-one against failed operations (target id, message type name, reason, operation label) and against dead_letter_count(); distinct by scenario hash; non-trivial iff failures of at least two different reasons occurred in the case",
+                quick_cases: 5000,
+                thorough_cases: 50000,
+                tape_len: 600,
+                log_polls: false,
+                mode: Mode::Single,
+            }
+        }
+        "C14" | "C15" => {
+            let mut p = Profile::base(if id == "C14" { "C14" } else { "C15" });
+            p.actors = (1, 5);
+            p.clients = (1, 4);
+            p.ops = (1, 6);
+            p.peer = Peer::Any;
+            p.peer_depth = 4;
+            p.p_peer = (3, 5);
+            p.p_hook_peer = (1, 4);
+            p.w_peer_how = [0, 0, 8, 4];
+            p.timeouts = vec![2, 4, 6, 10, 20, 40];
+            p.w_how = [8, 2, 8, 3, 0];
+            p.runs = (0, 2);
+            p.w_run_out = [3, 3, 0, 0];
+            p.caps = vec![1, 2, 4, 8, 32];
+            p.w_kill = 0;
+            p.w_stop = 1;
+            p.w_msg_out = [20, 1, 0];
+            p.max_work = 6;
+            p.max_delay = 16;
+            p.sampler = true;
+            if id == "C14" {
+                PropDef {
+                    id: "C14",
+                    profiles: vec![p],
+                    monitor: m2::c14,
+                    labels: m2::c14_labels,
+                    nontrivial: &["cycle_len_2", "cycle_len>=3", "cycle_through_lifecycle_hook"],
+                    rule: "1-5 actors whose hooks (on_start, handlers, on_run, on_stop) contain sequential directly-awaited asks (ask / ask_with_timeout) to arbitrary peers including themselves; logical wait-for graph rebuilt from the trace; distinct by scenario hash; non-trivial iff a would-be cycle of length >= 2 occurred or a cycle ran through a lifecycle hook",
+                    quick_cases: 5000,
+                    thorough_cases: 50000,
+                    tape_len: 700,
+                    log_polls: false,
+                    mode: Mode::Single,
+                }
+            } else {
+                p.w_kill = 1;
+                p.w_msg_out = [20, 1, 1];
+                PropDef {
+                    id: "C15",
+                    profiles: vec![p],
+                    monitor: m2::c15,
+                    labels: m2::c15_labels,
+                    nontrivial: &["reverse_ask_within_2ms_of_reply", "actor_ask_timed_out", "actor_ask_cancelled", "actor_ask_failed", "actor_ask_panicked"],
+                    rule: "same topology generator as C14 (statically cyclic, mostly acyclic in time) with timeouts, cancellations (on_run pre-emption), callee deaths and non-actor askers; every deadlock panic must be justified by a chain of unanswered asks in the logical graph; the real wait-for graph (verification hook) is sampled at every odd virtual millisecond (a quiescent instant by construction) and must equal the set of asks in flight; distinct by scenario hash; non-trivial iff B asked A within 2 ms after answering A, or an actor-context ask ended by timeout / cancellation / failure / panic",
+                    quick_cases: 5000,
+                    thorough_cases: 50000,
+                    tape_len: 700,
+                    log_polls: false,
+                    mode: Mode::Single,
+                }
+            }
+        }
+        "C16" => {
+            let mut p = Profile::base("C16");
+            p.clients = (1, 5);
+            p.ops = (2, 12);
+            p.w_how = [6, 5, 6, 5, 3];
+            p.w_stop = 3;
+            p.w_kill = 2;
+            p.w_clone = 3;
+            p.w_drop = 3;
+            p.w_downgrade = 3;
+            p.w_upgrade = 4;
+            p.w_cloneweak = 2;
+            p.w_dropweak = 1;
+            p.w_convert = 0;
+            p.w_probe = 3;
+            p.w_probeweak = 3;
+            p.w_routing = [1, 0, 0];
+            p.caps = vec![1, 2, 3, 8, 32, 0];
+            p.w_msg_out = [16, 2, 1];
+            p.w_start_out = [10, 1, 0];
+            p.runs = (0, 2);
+            p.actors = (1, 3);
+            p.init_all = false;
+            PropDef {
+                id: "C16",
+                profiles: vec![p],
+                monitor: m::c01,
+                labels: m2::c16_labels,
+                nontrivial: &["three_wrapper_kinds_with_timeout_or_lifecycle"],
+                rule: "metamorphic: each generated scenario is executed twice in the deterministic simulator - once with plain ActorRef/ActorWeak handles, once with every client handle held as a bundle of type-erased trait objects (TellHandler, AskHandler, ActorControl and their weak forms, built through both From forms) and every operation routed through a pseudo-randomly chosen equivalent erased path (direct, clone_boxed, Clone for Box, downgrade+upgrade, as_control/as_weak_control); the canonical traces (virtual times, results, hook order, final results, identities, dead letters) must be equal; distinct by scenario hash; non-trivial iff the erased run used >= 3 different operation kinds and included a timeout or lifecycle operation",
+                quick_cases: 4000,
+                thorough_cases: 40000,
+                tape_len: 600,
+                log_polls: false,
+                mode: Mode::DiffErased,
+            }
+        }
+        "C18" => {
+            let mut p = Profile::base("C18");
+            p.actors = (1, 4);
+            p.clients = (1, 5);
+            p.ops = (1, 8);
+            p.peer = Peer::Any;
+            p.peer_depth = 3;
+            p.p_peer = (1, 3);
+            p.p_hook_peer = (1, 6);
+            p.w_peer_how = [6, 2, 8, 4];
+            p.w_how = [8, 4, 8, 5, 2];
+            p.w_kill = 2;
+            p.w_stop = 2;
+            p.w_start_out = [10, 1, 1];
+            p.w_stop_out = [10, 1, 1];
+            p.w_run_out = [3, 3, 1, 1];
+            p.w_msg_out = [16, 2, 1];
+            p.runs = (0, 2);
+            p.caps = vec![1, 2, 3, 8, 32, 0];
+            p.w_metrics = 1;
+            PropDef {
+                id: "C18",
+                profiles: vec![p],
+                monitor: m::c01,
+                labels: m2::c18_labels,
+                nontrivial: &["ask_and_timeout_and_nontrivial_end"],
+                rule: "differential across builds: the same generated scenarios (union of the C01-C10 profiles plus peer asks in arbitrary topologies) are executed by harness builds with different rsactor feature sets and by a default-feature reference process; canonical traces (client results with virtual return times, per-actor hook sequences with times, handling order, final ActorResults with the state they carry; process-global ids replaced by scenario indices; log output excluded) must be identical; cases whose default-feature run contains a logical ask cycle are excluded and counted; distinct by scenario hash; non-trivial iff the case contains >=1 ask, >=1 timeout operation and a termination other than an uncontended graceful stop",
+                quick_cases: 2500,
+                thorough_cases: 30000,
+                tape_len: 600,
+                log_polls: false,
+                mode: Mode::DiffRef,
+            }
+        }
+        "C20" => {
+            let mut p = Profile::base("C20");
+            p.clients = (1, 4);
+            p.ops = (2, 10);
+            p.spin_us = 1500;
+            p.w_metrics = 5;
+            p.w_downgrade = 2;
+            p.w_clone = 2;
+            p.w_kill = 1;
+            p.w_stop = 1;
+            p.w_msg_out = [14, 1, 1];
+            p.w_how = [10, 2, 6, 2, 1];
+            p.max_work = 4;
+            p.caps = vec![2, 4, 8, 32];
+            p.w_run_out = [2, 2, 1, 0];
+            PropDef {
+                id: "C20",
+                profiles: vec![p],
+                monitor: m2::c20,
+                labels: m2::c20_labels,
+                nontrivial: &["3_messages_2_durations", "read_after_end"],
+                rule: "message sequences whose handlers really spend a generated 0-1500 us (thread::sleep, measured inside the handler), every termination cause, metrics read through strong, cloned and weak-upgraded handles during and after the run; distinct by scenario hash; non-trivial iff an actor handled >=3 messages with >=2 distinct measured durations, or metrics were read after the actor had ended",
+                quick_cases: 1200,
+                thorough_cases: 8000,
+                tape_len: 500,
+                log_polls: false,
+                mode: Mode::Single,
             }
         }
         _ => return None,
